@@ -54,6 +54,22 @@ fn main() {
             eprintln!("cannot parse {}: {}", path, e);
             std::process::exit(2)
         });
+        // raw fuzz artifacts: {"section": "fuzz/<target>", "case": {"hex": ".."}}
+        if let Some(target) = v["section"].as_str().and_then(|s| s.strip_prefix("fuzz/")) {
+            let data = vh::util::unhex(v["case"]["hex"].as_str().unwrap_or(""));
+            vh::install_panic_hook();
+            match vh::fuzz_entry(target, &data) {
+                Ok(()) => {
+                    println!("replay: fuzz target {} passes on this input", target);
+                    std::process::exit(0);
+                }
+                Err(msg) => {
+                    println!("VIOLATION property={} replay={}", sid, path);
+                    println!("  section=fuzz/{} reason: {}", target, msg);
+                    std::process::exit(1);
+                }
+            }
+        }
         let ctx = Ctx::new(
             sid,
             tier,
